@@ -86,6 +86,7 @@ CONF = {
     "trace": {"module": "MigrationJobTrace", "cfg": "Trace.cfg", "timeout": 1500},
     "signature": sig,
     "assumptions": [
+        "a reconcile may read the job one persisted write behind (stale) only where this controller incarnation wrote both versions; the controller's default job mode is varied per segment (the job itself always asks for ReservationFirst); rbind who=gone = consumed by a pod that has been deleted since (Succeeded, no current owner)",
         "one PodMigrationJob in reservation-first mode for a running pod without controller owner (the pending-pod path "
         "waitForPendingPodScheduled issues no eviction and is not driven); default MigrationControllerArgs, no object limiters, "
         "arbitrator filters always pass",
